@@ -23,6 +23,40 @@ pub fn generate(tier: &str, rng: &mut Rng) -> Vec<String> {
         out.push(c.line());
     }
     out.extend(gen_whole(tier, rng));
+    if thorough {
+        // small-scope exhaustive: every source schedule up to length 5 over
+        // {small message, message over the limit, Pending, source error}, both roles,
+        // three yield thresholds, with and without compression
+        let alphabet = ["i0102", "i0102030405", "p", "e9"];
+        for len in 0..=5usize {
+            let mut idx = vec![0usize; len];
+            loop {
+                let evs: Vec<String> = idx.iter().map(|i| alphabet[*i].to_string()).collect();
+                let items: Vec<Vec<u8>> = idx.iter().filter(|i| **i < 2).map(|i| if *i == 0 { vec![1, 2] } else { vec![1, 2, 3, 4, 5] }).collect();
+                for server in [true, false] {
+                    for yt in [0usize, 8, 100] {
+                        for comp in [None, Some(tonic::codec::CompressionEncoding::Gzip)] {
+                            let max = if comp.is_some() { Some(24) } else { Some(3) };
+                            out.push(EncCase { server, comp, disable: false, yield_thr: yt, buf_size: 16, max, evs: evs.clone(), items: items.clone(), extra_polls: 2 }.line());
+                        }
+                    }
+                }
+                // next index vector
+                let mut k = 0;
+                while k < len {
+                    idx[k] += 1;
+                    if idx[k] < alphabet.len() {
+                        break;
+                    }
+                    idx[k] = 0;
+                    k += 1;
+                }
+                if k == len {
+                    break;
+                }
+            }
+        }
+    }
     out
 }
 
